@@ -20,8 +20,13 @@ func init() {
 	log.Root().SetHandler(log.DiscardHandler())
 	pk := crypto.GenPrivKeyEd25519FromSecret([]byte("verif-metrics-key"))
 	metrics.PrometheusMetricInstance.Init(cfg.DefaultConfig(), pk.PubKey(), log.Root())
+}
 
-	kernel.Register(&kernel.Rig{
+// Describe returns the filled rig description of the library/history part of
+// C17 (including Run). The package does not register itself: the check (or a
+// combining rig) calls kernel.Register(valsetrig.Describe()).
+func Describe() *kernel.Rig {
+	return &kernel.Rig{
 		Property: "C17", Name: "valset", Level: "exploration",
 		Rule: "library/history part of C17 (the cluster invariant 'same proposer on all nodes at the same (H,R)' and FaultValidatorsEvidence after skipped rounds are checked by the cluster rig, not here). " +
 			"Per run: a pool of 5..16 ed25519 validators from the tape, powers from {ones, equal, small, medium, large, near 2^62/n, one extreme, all extreme}; " +
@@ -43,8 +48,8 @@ func init() {
 			"the frequency bound uses |count_i - W*p_i/total| < n, which follows from sum(priorities)=0 and the proposer paying exactly the total",
 		},
 		QuickRuns: 8000, ThoroughRuns: 60000, QuickBudget: 50 * time.Second, ThoroughBudget: 15 * time.Minute,
-		Run: run,
-	})
+		Run: Run,
+	}
 }
 
 type state struct {
@@ -89,7 +94,9 @@ func (s *state) drawPower(t *kernel.Tape, poolSize int, eq int64, idx int) int64
 	}
 }
 
-func run(c *kernel.Ctx) {
+// Run performs one run of the library/history part of C17; a pure function of
+// c.Tape and c.Tier.
+func Run(c *kernel.Ctx) {
 	t := c.Tape.Fork("cfg")
 	s := &state{c: c, hashOf: map[string]string{}, contentOf: map[string]string{}}
 	s.regime = regimes[t.Pick(1, 2, 5, 3, 2, 2, 2, 1)]
